@@ -18,7 +18,7 @@
 
    Byte positions: client frame i occupies CWire(wire[i]) bytes (2 header + 0/2/8 extended length +
    4 masking key + payload); sentB / arrB / ConsumedB count bytes of the client's frame stream that
-   were written / have arrived at the server's socket / have been consumed by the server.
+   were written / are known to have arrived at the server's socket / have been consumed by the server.
 
    Dev: named deviations of the code as it was written (KNOWN_FINDINGS.txt) and plausible bugs
    (mutants) used to show that the invariants are not vacuous.  Dev = {} satisfies every property.
@@ -147,7 +147,7 @@ VARIABLES
   wire,      \* frames the client has started to write, in order
   cuts,      \* cuts[i]: set of offsets inside frame i after which the client pauses
   sentB,     \* bytes of the frame stream written so far
-  arrB,      \* bytes arrived at the server's socket
+  arrB,      \* bytes the server side has observed to have arrived (a lower bound, see `Network')
   cst,       \* "run" | "shut" (client has shut down its sending side: EOF after sentB bytes)
   ci,        \* number of client frames the server has consumed
   call,      \* "idle" | "recv": is the handler inside a receive call?
